@@ -35,6 +35,16 @@ def run_real(events, dt, total):
     return {t: {v: row['s'][v] for v in VARS} for t, row in data.items()}
 
 
+def run_real_nocopy(events, dt, total):
+    tl = TimelineProcess({'timeline': events, 'time_step': dt})
+    eng = Engine(processes={'timeline': tl, 'holder': Holder()},
+                 topology={'timeline': {'global': ('global',), 's': ('s',)}, 'holder': {'s': ('s',)}},
+                 display_info=False)
+    eng.update(total)
+    data = eng.emitter.get_data()
+    return {t: {v: row['s'][v] for v in VARS} for t, row in data.items()}
+
+
 def reference(events, dt, total):
     """values of the variables at each emitted time"""
     vals = {v: -1 for v in VARS}
@@ -56,13 +66,20 @@ def reference(events, dt, total):
     return out
 
 
-def check(events, dt, total):
+def check(events, dt, total, shared=False):
     fails = []
+    if shared:
+        # the caller re-uses ONE dictionary object for several events (a periodic timeline built from templates)
+        byrepr = {}
+        events = [(t, byrepr.setdefault(repr(sorted(ch.items(), key=repr)), ch)) for t, ch in events]
+    before = copy.deepcopy(events)
     try:
-        real = run_real(events, dt, total)
+        real = run_real_nocopy(events, dt, total) if shared else run_real(events, dt, total)
     except Exception as e:
         return ['engine raised %s: %s' % (type(e).__name__, str(e)[:200])]
-    ref = reference(events, dt, total)
+    if shared and events != before:
+        fails.append('the timeline handed in by the caller was modified: %r -> %r' % (before, events))
+    ref = reference(before, dt, total)
     for t, want in ref.items():
         got = real.get(t)
         if got is None:
@@ -87,7 +104,7 @@ def main():
     a = ap.parse_args()
     if a.replay:
         d = json.load(open(a.replay))['scenario']
-        fails = check(deser(d['events']), d['dt'], d['total'])
+        fails = check(deser(d['events']), d['dt'], d['total'], shared=d.get('shared', False))
         L.emit_result({'status': 'reproduced' if fails else 'not-reproduced', 'failed': fails})
         return
     rng = random.Random('c19-%d' % a.seed)
@@ -104,14 +121,19 @@ def main():
             for dt in (1, 2, 4, 20):
                 evaluations += 1
                 events = list(perm)
-                fails = check(events, dt, 12)
+                shared = (evaluations % 3 == 0)
+                if shared:
+                    # duplicate one event's dictionary at two other times (same content -> same object in check())
+                    extra = rng.choice(events)
+                    events = events + [(extra[0] + 2, dict(extra[1])), (extra[0] + 2, {('s', 'c'): 'm'})]
+                fails = check(copy.deepcopy(events), dt, 12, shared=shared)
                 times = [e[0] for e in events]
                 if times != sorted(times) or len(set(times)) < len(times) or dt > 1:
                     distinct.add(json.dumps([ser(events), dt]))
                 if len(samples) < 2:
                     samples.append({'events': ser(events), 'timestep': dt})
                 if fails:
-                    rp = L.write_replay(a.out, 'C19', 'tl%d' % evaluations, {'events': ser(events), 'dt': dt, 'total': 12},
+                    rp = L.write_replay(a.out, 'C19', 'tl%d' % evaluations, {'events': ser(events), 'dt': dt, 'total': 12, 'shared': shared},
                                         fails, extra={'driver': 'bounded.c19'})
                     failures.append({'id': 'C19.bounded.timeline#%d: %s' % (evaluations, fails[0][:200]), 'replay': rp})
                     if len(failures) >= 3:
